@@ -61,7 +61,8 @@ def histories(rng, tier):
             if tp:
                 for b in sorted(set([0, 7, 8, 15, 16, W - 1] + [rng.randrange(W) for _ in range(2)])):
                     if b < W:
-                        h.append('chk w pix=%s bits=%d' % (','.join(map(str, tp)), b))
+                        h.append('chk w pix=%s bits=%d%s' % (','.join(map(str, tp)), b,
+                                                              ' via=pos' if rng.random() < 0.25 else ''))
             h += ['valid w', 'nvalid w']
         out.append(h)
     return out
